@@ -107,6 +107,9 @@ LookupFaults(k) ==
   \cup (IF "stale"     \in FaultKinds THEN {Resp(TrueRec(tl, k), GoodHead(tl, m)) : m \in {x \in 1..(cur - 1) : x = k \/ x = k + 1 \/ x = cur - 1}} ELSE {})
   \cup (IF "badsig"    \in FaultKinds THEN {Resp(TrueRec(tl, k), BadSigHead(tl, cur)), Resp(ForgedRec(k), BadSigHead(tl, cur))} ELSE {})
   \cup (IF "garbage"   \in FaultKinds THEN {Resp(TrueRec(tl, k), GarbageHead)} ELSE {})
+  \* the honest answer of another view (a genuine head of the other timeline): a cache file written by a process that
+  \* followed that view, or one request answered from it
+  \cup (IF "otherview" \in FaultKinds THEN {Resp(TrueRec(o, k), GoodHead(o, srv.n[o])) : o \in {x \in Timelines \ {tl} : k < srv.n[x]}} ELSE {})
   \cup (IF "malformed" \in FaultKinds THEN {Malformed} ELSE {})
   \cup (IF "neterr"    \in FaultKinds THEN {NetErr} ELSE {})
 \* Tile data handed to the client: [ok, d, lab] - ok = FALSE is a failed read; d the hashes;
